@@ -611,7 +611,8 @@ class Emitter:
         while end < len(suffix):
             ch = suffix[end]
             if '0' <= ch <= '9' or 'A' <= ch <= 'Z' or 'a' <= ch <= 'z' \
-                    or ch in '-;/?:@&=+$,_.~*\'()[]'   \
+                    or ch in '-;/?:@&=+$_.~*\'()'   \
+                    or (ch in ',[]' and not handle)   \
                     or (ch == '!' and handle != '!'):
                 end += 1
             else:
